@@ -1146,8 +1146,12 @@ Lemma eff_mask_other h d : algorithm h <> [84] -> algorithm h <> [68] -> algorit
   eff_mask h None d = d.
 Proof.
   unfold eff_mask. intros H1 H2 H3.
-  destruct (algorithm h) as [|c [|]]; try reflexivity.
-  apply algo_id_max_key_len_other; congruence.
+  destruct (algorithm h) as [|c [|x l]]; [reflexivity| |].
+  - apply algo_id_max_key_len_other; congruence.
+  - unfold algo_id_max_key_len. destruct c as [|p]; [reflexivity|].
+    repeat (match goal with
+            | |- context [match ?q with _ => _ end] => is_var q; destruct q
+            end; cbv beta iota); reflexivity.
 Qed.
 Lemma eff_mask_some h z d : eff_mask h (Some z) d = Z.to_N z.
 Proof. reflexivity. Qed.
